@@ -38,6 +38,7 @@ type ShardResult struct {
 	Violations   []Violation                `json:"violations"`
 	Inconclusive []string                   `json:"inconclusive"`
 	Done         bool                       `json:"done"`
+	KeyHist      map[string]int             `json:"-"`
 }
 
 // Ctx is handed to a property's shard body.
